@@ -1956,6 +1956,7 @@ class Walker:
         self.spans = {}           # id(followed FunctionDef) -> (frame id, loops of that frame before the call, after the call)
         self._cells = []          # subscript stores of followed callees
         self.for_trips = []       # (frame of a `for`, its trip count) for the loops over range(n) / repeat(x, n)
+        self.for_iters = []       # (frame of a `for`, value of what it iterates over, path condition, node) for the loops over a collection
         self.local_funcs = {}     # name of a function defined inside a walked function (or key of a lambda) -> FunctionDef
         self.all_inits = []       # (buffer name, creating value, statement)
         self.init_guards = {}     # id(statement) -> guard under which a buffer was (re)bound
@@ -3106,6 +3107,8 @@ class Walker:
         for nm, p in ph.items():
             ev.env[nm] = p
         tnames = [x.id for x in ast.walk(st.target) if isinstance(x, ast.Name)]
+        if n is None:
+            self.for_iters.append((fid, itv, self.guard, st))
         if n is not None and not is_unknown(n) and not isinstance(n, tuple):
             self.for_trips.append((fid, n))
         for i, nm in enumerate(tnames):
